@@ -13,8 +13,40 @@ from spec import ref, ref_p1
 PROP = "C04"
 
 
-def readout_assertions(eng, ctx, r, w, label):
+def touch_first(eng, r, orders=3):
+    """the validity of a readout must not depend on which accessor was used before: try three access orders"""
+    order = eng.pick(orders) if orders > 1 else 0
+    if order == 1:
+        try:
+            r.identification_line
+        except (PathAbort, EngineLimit, EngineFault):
+            raise
+        except Exception:
+            pass
+    elif order == 2:
+        for acc in ("payload", "as_bytes", "expected_checksum", "end_line"):
+            try:
+                getattr(r, acc)
+            except (PathAbort, EngineLimit, EngineFault):
+                raise
+            except Exception:
+                pass
+        try:
+            r.is_valid
+        except (PathAbort, EngineLimit, EngineFault):
+            raise
+        except Exception:
+            pass
+    return order
+
+
+def readout_assertions(eng, ctx, r, w, label, orders=1):
     """r: real DataReadout object on symbolic octets"""
+    order = touch_first(eng, r, orders)
+    label = f"{label} [access order {order}]"
+    w = dict(w, order=order)
+    if ctx.witness is not None and "order" not in ctx.witness:
+        ctx.witness = dict(ctx.witness, order=order)
     raw = list(r.as_bytes)
     try:
         valid = bool(r.is_valid)
@@ -51,7 +83,7 @@ def PC_seq_eq(a, b):
     return a.seq_eq(b)
 
 
-def direct_path(k_print, k_any):
+def direct_path(k_print, k_any, orders=1):
     def path(eng, ctx):
         import han.dlde as D
         data = list(b"1-0:1.8.0(") + [PC.free_printable(f"d{i}") for i in range(k_print)] + list(b"*kWh)\r\n")
@@ -69,7 +101,7 @@ def direct_path(k_print, k_any):
             return
         ctx.obs = PC.p1_sig([r])
         ctx.nontrivial()
-        readout_assertions(eng, ctx, r, w, f"direct k={k_print}+{k_any}")
+        readout_assertions(eng, ctx, r, w, f"direct k={k_print}+{k_any}", orders)
     return path
 
 
@@ -141,8 +173,8 @@ def window_path(width, via_reader):
 def scenarios(tier):
     q = tier == "quick"
     A = inject.assumptions(("p1",))
-    out = [Scenario(f"direct: {3 if q else 6} free printable data octets + 4 free checksum characters", direct_path(3 if q else 6, 0),
-                    bounds={"free": "data octets printable except '!'; the 4 checksum characters unconstrained (all 2^32 values: hex in either case, 0000, signs, underscores, blanks, non-ASCII)"},
+    out = [Scenario(f"direct: {3 if q else 6} free printable data octets + 4 free checksum characters", direct_path(3 if q else 6, 0, orders=3),
+                    bounds={"accessor_orders": "is_valid first | identification_line first | payload, as_bytes, expected_checksum, end_line, is_valid first", "free": "data octets printable except '!'; the 4 checksum characters unconstrained (all 2^32 values: hex in either case, 0000, signs, underscores, blanks, non-ASCII)"},
                     domains=("p1",), frontier=7, assumptions=A, must_reach=("assert", "valid", "invalid", "valid-with-checksum", "invalid-wellformed")),
            Scenario(f"direct: 1 printable + {2 if q else 3} unconstrained data octets + 4 free checksum characters", direct_path(1, 2 if q else 3),
                     bounds={"free": "unconstrained octets may be '!', LF, CR, >= 0x80"}, domains=("p1",), frontier=7, assumptions=A, engine_opts={"timeout_ms": 60000}),
